@@ -166,7 +166,7 @@ def c07_s2(ctx):
 
 
 # ================================================================ C07-S3
-@rule("C07", "C07-S3", 1, "a read at an explicit offset saves the first-pass cursor before and restores it on every successful path after")
+@rule("C07", "C07-S3", 1, "a read at an explicit offset saves the first-pass cursor before and restores it on every successful path after", also=("C01",))
 def c07_s3(ctx):
     fns = impl_fns(ctx, SEND)
     n = 0
@@ -206,7 +206,7 @@ def c07_s3(ctx):
 
 
 # ================================================================ C07-S4
-@rule("C07", "C07-S4", 1, "the segment reader seeks to the offset it reports, reads at most `length` bytes (take) and returns the bytes read; defaults are the cursor and the configured segment size")
+@rule("C07", "C07-S4", 1, "the segment reader seeks to the offset it reports, reads at most `length` bytes (take) and returns the bytes read; defaults are the cursor and the configured segment size", also=("C01",))
 def c07_s4(ctx):
     f = ctx.one("C07-S4", "SendTransaction::get_file_segment")
     eb = ExprBuilder(ctx.prog, f)
@@ -962,7 +962,7 @@ def c07_s6(ctx):
         yield ok("C07-S6", "SendTransaction:no-retain", "-", "the sender's queue is never filtered", nontrivial=False)
 
 
-@rule("C07", "C07-S7", 1, "the first pass ends (EOF prepared) only when the file cursor has reached the file length")
+@rule("C07", "C07-S7", 1, "the first pass ends (EOF prepared) only when the file cursor has reached the file length", also=("C01",))
 def c07_s7(ctx):
     f = ctx.one("C07-S7", "SendTransaction::send_pdu")
 
